@@ -265,6 +265,49 @@ func c19GenKafka(w *bufio.Writer, r *hx.Rng, rawCtl bool) {
 		hx.Enc([]byte("topic")), c19BatchesTok(bs))
 }
 
+// c19GenKafkaSlots: successive batches through one worker in which the same record slot is used by
+// an event with a topic field, then by events without one (or with an empty / non-string one):
+// the worker's kgo.Record objects are reused, the topic must not be.
+func c19GenKafkaSlots(w *bufio.Writer, r *hx.Rng) {
+	nb := r.Range(2, 4)
+	width := r.Range(1, 4)
+	var bs [][]*c19GenEv
+	for b := 0; b < nb; b++ {
+		var evs []*c19GenEv
+		for i := 0; i < width; i++ {
+			var src string
+			var topic []byte
+			switch {
+			case b == 0 || r.Chance(1, 4):
+				t := "t" + strconv.Itoa(b) + "-" + strconv.Itoa(i)
+				if r.Chance(1, 4) {
+					t = c19Adversarial[r.Intn(len(c19Adversarial))]
+				}
+				tree := jt.O(jt.F("topic", jt.S(t)), jt.F("n", jt.Nu(strconv.Itoa(b*10+i))))
+				src, topic = string(tree.JSON()), []byte(t)
+			case r.Chance(1, 3):
+				src = `{"topic":"","n":` + strconv.Itoa(b*10+i) + `}`
+			case r.Chance(1, 3):
+				src = `{"topic":{"x":1},"n":` + strconv.Itoa(b*10+i) + `}`
+			default:
+				src = `{"n":` + strconv.Itoa(b*10+i) + `}`
+			}
+			enc, ok := c19Enc([]byte(src))
+			if !ok {
+				continue
+			}
+			kind := 0
+			if r.Chance(1, 8) {
+				kind = 2
+			}
+			evs = append(evs, &c19GenEv{kind: kind, src: []byte(src), enc: enc, route: [][]byte{topic}})
+		}
+		bs = append(bs, evs)
+	}
+	fmt.Fprintf(w, "c19.kafka %d %d %s 1 %s %s\n", 8*[]int{0, 8, 64}[r.Intn(3)], 8, hx.Enc([]byte("dflt")),
+		hx.Enc([]byte("topic")), c19BatchesTok(bs))
+}
+
 func c19GenHTTP(w *bufio.Writer, r *hx.Rng, rawCtl bool, split bool, script []int, maxEv int) {
 	raw := r.Chance(1, 3)
 	route := c19NoRoute
@@ -514,6 +557,9 @@ func genC19(w *bufio.Writer, rng *hx.Rng, tier string) {
 		c19GenFile(w, rng, false)
 		c19GenGelf(w, rng, false, gp, false)
 		c19GenKafka(w, rng, false)
+		if i%4 == 0 {
+			c19GenKafkaSlots(w, rng)
+		}
 		c19GenHTTP(w, rng, false, false, c19Script(rng, rng.Range(0, 3), okPool), 8)
 		c19GenHTTP(w, rng, false, rng.Bool(), c19Script(rng, rng.Range(0, 12), mixPool), 8)
 		c19GenES(w, rng, false, false, c19Script(rng, rng.Range(0, 3), okPool), 8)
